@@ -6,7 +6,7 @@ EXPLANATION = 'Mixed. P: writer.partition_on_columns (one arbitrary group, hive 
 
 def p_parts():
     from ._generic import optional_parts
-    return optional_parts(("_paths", "p_paths"), ("_options", "p_options"), ("_analyse", "p_analyse"))
+    return optional_parts(("_paths", "p_paths_c08"), ("_options", "p_options"), ("_analyse", "p_analyse"))
 
 
 def run(ctx):
